@@ -69,6 +69,8 @@ def cases(tier, seed):
     d = files.wspec_desc(rng, (nI, nX, 20), 4, (4, 4, 512), version=[0, 2, 9], holes=[3, 8, 20, 41], il=[5, 1], narr=3)
     for backend in ('local', 'blob'):
         out.append({'id': 'wi:%s' % backend, 'file': d, 'backend': backend, 'pairs': 8, 'orders': 4, 'cost': 2})
+    # the same fault sweep in an interpreter started with -O (assert statements are compiled out there: a length check must not be one)
+    out.append({'id': 'optimised-interpreter', 'kind': 'python-O', 'cost': 4})
     if tier == 'thorough':
         out.append({'id': 'memcheck:faults', 'kind': 'memcheck', 'workload': 'faults', 'cost': 60})
     return out
@@ -164,9 +166,74 @@ def run_memcheck_case(case):
             'strata': ['memcheck:' + case['workload']], 'key': case['id']}
 
 
+O_SCRIPT = r'''
+import sys, json
+import numpy as np
+from vz import monitors, env
+from seismic_zfp.read import SgzReader
+path = sys.argv[1]
+ops = [('read_inline', (2,)), ('read_crossline', (1,)), ('read_zslice', (3,)), ('get_trace', (7,)), ('gen_trace_header', (3,)), ('read_subvolume', (0, 5, 0, 5, 0, 20))]
+out = []
+assert_active = False
+try:
+    assert False
+except AssertionError:
+    assert_active = True
+for backend in ('local', 'blob'):
+    for op in ops:
+        h = monitors.MonFile(path) if backend == 'local' else monitors.FakeBlob(path)
+        r = SgzReader(h)
+        mark = len(h.log)
+        truth = np.asarray(getattr(r, op[0])(*op[1])) if op[0] != 'gen_trace_header' else dict(getattr(r, op[0])(*op[1]))
+        n = len(h.log) - mark
+        r.loader.clear_cache()
+        for k in range(mark, mark + n):
+            for kind in ('empty', 'half'):
+                h = monitors.MonFile(path, {k: kind}) if backend == 'local' else monitors.FakeBlob(path, {k: kind})
+                r = SgzReader(h)
+                try:
+                    got = getattr(r, op[0])(*op[1])
+                    same = (dict(got) == truth) if op[0] == 'gen_trace_header' else (np.asarray(got).shape == truth.shape and np.array_equal(np.asarray(got), truth))
+                    out.append([backend, op[0], k, kind, 'same' if same else 'WRONG'])
+                except Exception as e:
+                    out.append([backend, op[0], k, kind, 'raised'])
+                r.loader.clear_cache()
+print('RESULT ' + json.dumps({'assert_active': assert_active, 'runs': out}))
+'''
+
+
+def run_python_O_case(case, ctx):
+    import json
+    import os
+    import subprocess
+    path = os.path.join(env.TEST_DATA, 'small_4bit.sgz')
+    e = dict(os.environ)
+    e['PYTHONPATH'] = os.pathsep.join([e.get('PYTHONPATH', ''), env.VERIF])
+    p = subprocess.run([env.PY, '-O', '-c', O_SCRIPT, path], capture_output=True, text=True, env=e, timeout=600)
+    line = next((ln for ln in p.stdout.splitlines() if ln.startswith('RESULT ')), None)
+    if line is None:
+        return {'inconclusive': 'python -O sub-run did not report: rc=%s %s' % (p.returncode, (p.stderr or '')[-300:]), 'counters': {'optimised_runs': 0}}
+    res = json.loads(line[7:])
+    if res['assert_active']:
+        return {'inconclusive': 'assert statements are active in the -O sub-run', 'counters': {'optimised_runs': 0}}
+    bad = []
+    for backend, name, k, kind, outcome in res['runs']:
+        if outcome == 'WRONG':
+            bad.append({'sig': 'python-O:%s:%s:returned-wrong-data-after-%s' % (backend, name, kind), 'detail': 'range read %d made %s under python -O: the call returned data differing from the truth' % (k, kind)})
+    seen, uniq = set(), []
+    for v in bad:
+        if v['sig'] not in seen:
+            seen.add(v['sig'])
+            uniq.append(v)
+    return {'violations': uniq, 'counters': {'optimised_runs': len(res['runs']), 'optimised_raised': sum(1 for r_ in res['runs'] if r_[4] == 'raised')},
+            'strata': ['interpreter:-O'], 'key': case['id'], 'nontrivial': len(res['runs']) > 10}
+
+
 def run_case(case, ctx):
     if case.get('kind') == 'memcheck':
         return run_memcheck_case(case)
+    if case.get('kind') == 'python-O':
+        return run_python_O_case(case, ctx)
     import seismic_zfp
     from seismic_zfp.read import SgzReader
     rng = ctx['rng']
@@ -484,6 +551,8 @@ def sample_view(case, res):
 
 def finalize(tier, cases, results, counters, strata):
     reasons = []
+    if counters.get('optimised_runs', 0) == 0:
+        reasons.append('the fault sweep under python -O did not run')
     for s in ['backend:local', 'backend:blob', 'kind:3d', 'kind:2d', 'kind:irregular', 'layout:default', 'layout:zslice',
               'layout:general']:
         if s not in strata:
